@@ -827,7 +827,7 @@ func main() {
 			}
 		}
 		rep.Extra["corpus_cases"] = len(hists) + len(sets)
-		nA, nB := 260, 200
+		nA, nB := 300, 400
 		if a.Thorough() {
 			nA, nB = 6000, 12000
 		}
